@@ -76,6 +76,11 @@ def make_plan(tape, prop):
     # an included file whose basename equals the name of a definition made elsewhere (include nodes and definitions share
     # the sorter's name space)
     plan["name_clash"] = tape.draw(1 << 8) if tape.chance(1, 6) else 0
+    # "each file processed once": a layered diamond (two files per layer, each including both files of the layer below)
+    # has 2^depth include paths to its bottom; the simulated clock tells whether the work follows the paths or the files
+    plan["inc_comment"] = 1 + tape.draw(3) if tape.chance(1, 6) else 0
+    plan["deep"] = (14 + tape.draw(2)) if tape.chance(1, 150) else 0
+    plan["deep_isar"] = tape.chance(1, 3)
     return plan
 
 
@@ -194,6 +199,15 @@ class Arrangement(object):
                 text = render.isar_text(mine, includes=incs)
             else:
                 text = render.prophy_text({"defs": mine}, includes=incs)
+                style = self.plan.get("inc_comment", 0)
+                if style and incs:
+                    # a comment after the directive, with a quoted word in it (what the line is for)
+                    tail = [' // provides "%s"', ' /* see "%s" */', '\t// "quoted"'][style - 1]
+                    lines = text.split("\n")
+                    for i, ln in enumerate(lines):
+                        if ln.startswith("#include "):
+                            lines[i] = ln + (tail % "types" if "%s" in tail else tail)
+                    text = "\n".join(lines)
                 if f == 99:
                     text = "/* placeholder header: no declarations */\n// nothing here\n"
             fs.put(self.path_of[f], text)
@@ -267,8 +281,52 @@ class FsRun(object):
     def probe(self, k):
         self.probes[k] = self.probes.get(k, 0) + 1
 
+    def run_deep(self, depth, isar):
+        from sim.clock import StepClock, SimTimeout
+        fs = simfs.FakeFS("/w")
+        fs.mkdir("/w/out")
+        ext = ".xml" if isar else ".prophy"
+        for k in range(depth):
+            for j in (0, 1):
+                if isar:
+                    defs = [{"k": "struct", "name": "L%d_%d" % (k, j), "members":
+                             [{"name": "a", "type": "u8", "arr": None, "opt": False}] +
+                             ([] if k == 0 else [{"name": "b", "type": "L%d_0" % (k - 1), "arr": None, "opt": False},
+                                                 {"name": "c", "type": "L%d_1" % (k - 1), "arr": None, "opt": False}])}]
+                    text = render.isar_text(defs, includes=[] if k == 0 else ["l%d_0.xml" % (k - 1), "l%d_1.xml" % (k - 1)])
+                else:
+                    inc = "" if k == 0 else "".join('#include "l%d_%d.prophy"\n' % (k - 1, jj) for jj in (0, 1))
+                    text = inc + "struct L%d_%d { u8 a; %s};\n" % (k, j, "" if k == 0 else "L%d_0 b; L%d_1 c; " % (k - 1, k - 1))
+                fs.put("/w/l%d_%d%s" % (k, j, ext), text)
+        nfiles = 2 * depth
+        budget = 2000000 + 400000 * nfiles        # a file of this size costs about 220 k line events (ply start-up included)
+        clock = StepClock(budget, cpu_budget_s=120)
+        kind = "deep-layered-diamond" + ("/isar" if isar else "")
+        self.faults[kind] = self.faults.get(kind, 0) + 1
+        self.trace.append("layered diamond: depth %d, %d files, %s" % (depth, nfiles, ext))
+        self.log.update(("deep %d %s" % (depth, ext)).encode())
+        try:
+            with clock:
+                nodes, exc, so, se = simworld.run_prophyc(fs, (["--isar"] if isar else []) + [
+                    "--python_out", "/w/out", "/w/l%d_0%s" % (depth - 1, ext)])
+        except SimTimeout:
+            self.steps += clock.steps
+            return self.v("C16", "work", "C16/include-diamond-work-grows-with-paths-not-files",
+                          "compiling the top of a layered include diamond of depth %d (%d files of 3 declarations) exceeded "
+                          "%d line events (about twice what %d such files cost when each is processed once): the work "
+                          "follows the 2^%d include paths" % (depth, nfiles, budget, nfiles, depth))
+        self.steps += clock.steps
+        self.count("deep_diamond_compiles")
+        if exc is not None:
+            return self.v("C16", "compile-failed", "C16/compile-failed/%s/%s" % (type(exc).__name__, _msgkey(exc)),
+                          "layered diamond of depth %d failed: %s: %s" % (depth, type(exc).__name__, str(exc)[:300]))
+        self.states.add("deep:%d:%s" % (depth, ext))
+        return None
+
     def run(self):
         plan = self.plan
+        if plan.get("deep"):
+            return self.run_deep(plan["deep"], plan.get("deep_isar"))
         arr = Arrangement(plan)
         fs = simfs.FakeFS(arr.cwd)
         arr.populate(fs)
@@ -311,6 +369,8 @@ class FsRun(object):
             self.probe("decoy_later_in_search_order")
         self.log.update("\n".join(self.trace).encode())
         self.faults[fault + ("/isar" if arr.ext == ".xml" else "")] = self.faults.get(fault + ("/isar" if arr.ext == ".xml" else ""), 0) + 1
+        if plan.get("inc_comment") and arr.ext != ".xml":
+            self.faults["comment-with-quotes-after-include"] = self.faults.get("comment-with-quotes-after-include", 0) + 1
         if any("/../" in s for s in arr.spell.values()):
             self.probe("include_through_second_spelling")
         if arr.cwd not in ("/w",):
